@@ -78,9 +78,35 @@ def lean_files():
             yield os.path.join(LEAN, "Drv", f)
 
 
-def forbidden_tokens():
+_IMPORT_RE = re.compile(r"^\s*(?:public\s+)?import\s+(Jap\.[\w.]+)", re.M)
+
+
+def import_closure(path, seen=None):
+    """files of the Jap library transitively imported by a Lean file (source-level)"""
+    seen = seen if seen is not None else set()
+    if path in seen or not os.path.exists(path):
+        return seen
+    seen.add(path)
+    for m in _IMPORT_RE.finditer(strip_comments(open(path).read())):
+        import_closure(os.path.join(LEAN, *m.group(1).split(".")) + ".lean", seen)
+    return seen
+
+
+def files_of_property(prop):
+    """Props/Cxx.lean, everything it imports, and the drivers built on those models"""
+    files = import_closure(os.path.join(LEAN, "Jap", "Props", prop + ".lean"))
+    for f in sorted(os.listdir(os.path.join(LEAN, "Drv"))):
+        if f.endswith(".lean"):
+            d = os.path.join(LEAN, "Drv", f)
+            deps = import_closure(d, set()) - {d}
+            if deps and deps <= files | {d}:
+                files = files | {d}
+    return sorted(files)
+
+
+def forbidden_tokens(prop=None):
     hits = []
-    for p in lean_files():
+    for p in (files_of_property(prop) if prop else lean_files()):
         src = strip_comments(open(p).read())
         # string literals cannot smuggle proofs; drop them to avoid false hits
         src = re.sub(r'"(?:\\.|[^"\\])*"', '""', src)
@@ -128,7 +154,7 @@ def build(ctx, targets=None, extractors=None):
             ctx.discharged = 0
             return
         # audit
-        hits = forbidden_tokens()
+        hits = forbidden_tokens(prop)
         if hits:
             raise MachineryError("forbidden tokens in Lean sources: " + "; ".join(hits[:5]))
         path = os.path.join(LEAN, "Jap", "Props", prop + ".lean")
